@@ -686,7 +686,7 @@ func returnAlternatives(fn *ssa.Function, i int) []retAlt {
 			}
 			out = append(out, retAlt{v, from, rt})
 		}
-		expand(rt.Results[i], b)
+		expand(path.ReturnValues(rt)[i], b)
 	}
 	return out
 }
